@@ -144,3 +144,16 @@ func vstub_sync_Pool_Get(p *sync.Pool) any {
 	return nil
 }
 func vstub_sync_Pool_Put(p *sync.Pool, x any) {}
+
+// sync.Once without atomics (sequential model)
+var vstubOnceDone map[*sync.Once]bool
+
+func vstub_sync_Once_Do(o *sync.Once, f func()) {
+	if vstubOnceDone == nil {
+		vstubOnceDone = map[*sync.Once]bool{}
+	}
+	if !vstubOnceDone[o] {
+		vstubOnceDone[o] = true
+		f()
+	}
+}
